@@ -323,15 +323,33 @@ def check_immediate_effect(rep, fl, rule="R02.5"):
     ok = len(c) == 1
     if ok:
         # reached on every not-closed path
+        tested_ti = False
         for bi in ti.live_blocks():
             t = ti.term(bi)
             if t and t["k"] == "switch":
                 for tgt, atom, pol in edge_literals(ti, bi):
-                    if atom is not None and props_life.is_closed_lit(norm(ti.expand(atom))) and pol is False:
-                        ok = ok and must_pass_through(ti, [c[0][0]], from_bi=tgt)
+                    if atom is not None and props_life.is_closed_lit(norm(ti.expand(atom))):
+                        tested_ti = True
+                        if pol is False:
+                            ok = ok and must_pass_through(ti, [c[0][0]], from_bi=tgt)
+        if not tested_ti:
+            ok = ok and must_pass_through(ti, [c[0][0]])
     tu = fl.cache_fn("try_update")
     su = calls_to(tu, SM + "::try_update")
-    ok = ok and len(su) == 1 and must_pass_through(tu, [su[0][0]])
+    ok = ok and len(su) == 1
+    if ok:
+        # (reached on every not-closed path of the helper as well, should the flag be tested there)
+        tested = False
+        for bi in tu.live_blocks():
+            t = tu.term(bi)
+            if t and t["k"] == "switch":
+                for tgt, atom, pol in edge_literals(tu, bi):
+                    if atom is not None and props_life.is_closed_lit(norm(tu.expand(atom))):
+                        tested = True
+                        if pol is False:
+                            ok = ok and must_pass_through(tu, [su[0][0]], from_bi=tgt)
+        if not tested:
+            ok = ok and must_pass_through(tu, [su[0][0]])
     rep.check(ok, rule, fl, ti, "store.try_update before return", "every insert on an open cache has run store.try_update (the in-place swap) before it returns", "an insert can return without having attempted the in-place update")
     # Update result => Ok(true) whatever the send does (value already replaced)
     props_cache.check_dropsets(rep, fl)
